@@ -262,8 +262,19 @@ func (g *gen) response() ([]byte, string) {
 	if r.Chance(12) && mode != "chunked" {
 		add("Trailer", hk.Pick(r, trVals))
 	}
+	var used []string
 	for i, n := 0, r.Intn(4); i < n; i++ {
-		add(hk.Pick(r, plainKeys), hk.Pick(r, plainVals))
+		k := hk.Pick(r, plainKeys)
+		used = append(used, k)
+		add(k, hk.Pick(r, plainVals))
+	}
+	if len(used) > 0 && r.Chance(30) {
+		// the same field name again (any letter case), interleaved with the others by the shuffle
+		// below: values must be appended to THAT field's list and to no other
+		g.note("repeat")
+		for i, n := 0, r.Range(1, 2); i < n; i++ {
+			add(flipCase(r, hk.Pick(r, used)), hk.Pick(r, []string{"again", "b=2", "third", ""}))
+		}
 	}
 	if r.Chance(14) {
 		hdrs = append(hdrs, g.oddHeaderLine())
@@ -565,6 +576,9 @@ func fixedStreams() []struct{ data, shape string } {
 		{"HTTP/1.1 200 OK\r\nTransfer-Encoding: chunked\r\n\r\n0\r\nX-T: " + strings.Repeat("t", 52) + "\r\n\r\nnext", "fixed-trailer-at-64-edge"},
 		{"HTTP/1.1 200 OK\r\nTransfer-Encoding: chunked\r\n\r\n0\r\nX-T: " + strings.Repeat("t", 53) + "\r\n\r\nnext", "fixed-trailer-past-64-edge"},
 		{"HTTP/1.1 200 OK\r\nX-Pad: " + strings.Repeat("p", 6) + "\r\nY: 1\r\n\r\n", "fixed-cr-straddles-16"},
+		{"HTTP/1.1 200 OK\r\nSet-Cookie: a=1\r\nX-Request-Id: r1\r\nSet-Cookie: b=2\r\nContent-Length: 0\r\n\r\n", "fixed-repeated-name-interleaved"},
+		{"HTTP/1.1 200 OK\r\nA: 1\r\nB: 2\r\na: 3\r\nC: 4\r\nb: 5\r\nA: 6\r\nD: 7\r\nContent-Length: 0\r\n\r\n", "fixed-repeated-names-three-way"},
+		{"HTTP/1.1 200 OK\r\nTransfer-Encoding: chunked\r\nTrailer: X-T\r\n\r\n0\r\nX-T: 1\r\nY-T: 2\r\nx-t: 3\r\n\r\n", "fixed-repeated-trailer-name"},
 		{"", "fixed-empty"},
 		{"\r\n", "fixed-blank-status"},
 		{"HTTP/1.1 200 OK", "fixed-status-no-eol"},
@@ -589,6 +603,24 @@ func bigStreams(r *hk.Rand, quick bool) []fixedStream {
 			n := r.Range(4080, 4110)
 			out = append(out, fixedStream{[]byte("HTTP/1.1 200 OK\r\nX-Big: " + strings.Repeat("v", n) + "\r\nContent-Length: 2\r\n\r\nhiNEXT"), fmt.Sprintf("big-header-%d", n)})
 		}
+	}
+	return out
+}
+
+// connMatrix: protocol version x Connection value(s) - the keep-alive decision table
+// (shouldClose) exhaustively over the generator's token spellings, with a declared length so
+// that only the Connection rule decides Close.
+func connMatrix() []fixedStream {
+	var out []fixedStream
+	for _, ver := range []string{"HTTP/1.0", "HTTP/1.1", "HTTP/2.0", "HTTP/0.9", "HTTP/1.9"} {
+		for _, cv := range connVals {
+			out = append(out, fixedStream{[]byte(ver + " 200 OK\r\nConnection: " + cv + "\r\nContent-Length: 2\r\n\r\nhiNEXT"), "conn-matrix:" + ver + ":" + cv})
+		}
+		out = append(out,
+			fixedStream{[]byte(ver + " 200 OK\r\nConnection: keep-alive\r\nConnection: close\r\nContent-Length: 2\r\n\r\nhi"), "conn-matrix:" + ver + ":two-lines-ka-close"},
+			fixedStream{[]byte(ver + " 200 OK\r\nConnection: close\r\nConnection: keep-alive\r\nContent-Length: 2\r\n\r\nhi"), "conn-matrix:" + ver + ":two-lines-close-ka"},
+			fixedStream{[]byte(ver + " 200 OK\r\nContent-Length: 2\r\n\r\nhi"), "conn-matrix:" + ver + ":none"},
+		)
 	}
 	return out
 }
